@@ -1,7 +1,8 @@
 //! Family `json`: payload `<index hex> <offset> <abi type>`; answer `rt=<0|1> json=<canonical JSON>`.
 //! AbiType text: `any` `(number ?|N)` `(uint ?|N)` `(int ?|N)` `address` `selector` `function` `bool`
 //! `(array 0xHEX T)` `(bytes ?|N)` `(bits ?|N)` `(dynarray T)` `dynbytes` `(mapping K V)`
-//! `(struct (OFF T)*)` `infinite` `(conflict a,b|c)` (payload words are [a-z]+).
+//! `(struct (OFF T)*)` `infinite` `(conflict a,b|c)` (payload words are [a-z]+, or `~` followed by the
+//! hex of the UTF-8 bytes of an arbitrary string).
 use ethnum::U256;
 use storage_layout_extractor::{
     layout::StorageSlot,
@@ -13,6 +14,14 @@ use crate::rng::Rng;
 
 fn toks(s: &str) -> Vec<String> {
     s.replace('(', " ( ").replace(')', " ) ").split_whitespace().map(String::from).collect()
+}
+
+/// a conflict payload word: `[a-z]+` as is, `~<hex>` = the string with these UTF-8 bytes
+fn word(s: &str) -> String {
+    match s.strip_prefix('~') {
+        Some(h) => String::from_utf8(crate::util::hex_to_bytes(h)).expect("utf-8 payload"),
+        None => s.to_string(),
+    }
 }
 
 fn opt(s: &str) -> Option<usize> {
@@ -75,8 +84,8 @@ fn parse(t: &[String], p: &mut usize) -> AbiType {
             let body = t[*p].clone();
             *p += 1;
             let mut parts = body.split('|');
-            let c: Vec<String> = parts.next().unwrap_or("").split(',').filter(|x| !x.is_empty()).map(String::from).collect();
-            let r: Vec<String> = parts.next().unwrap_or("").split(',').filter(|x| !x.is_empty()).map(String::from).collect();
+            let c: Vec<String> = parts.next().unwrap_or("").split(',').filter(|x| !x.is_empty()).map(word).collect();
+            let r: Vec<String> = parts.next().unwrap_or("").split(',').filter(|x| !x.is_empty()).map(word).collect();
             AbiType::ConflictedType { conflicts: c, reasons: r }
         }
         x => panic!("bad abi head {x}"),
@@ -106,7 +115,8 @@ pub fn eval(payload: &str) -> String {
         Err(_) => false,
     };
     let canon = serde_json::to_value(&slot).expect("to_value").to_string();
-    format!("rt={} json={}", u8::from(rt), canon)
+    // the text the library's own serialiser writes is the canonical one (same field order)
+    format!("rt={} same={} json={}", u8::from(rt), u8::from(canon == text), text)
 }
 
 fn gen_type(r: &mut Rng, depth: usize, out: &mut String) {
@@ -128,8 +138,23 @@ fn gen_type(r: &mut Rng, depth: usize, out: &mut String) {
             11 => out.push_str("infinite"),
             _ => {
                 let words = ["a", "word", "mapping", "conflicts", "x"];
-                let c: Vec<&str> = (0..r.below(3)).map(|_| *r.pick(&words)).collect();
-                let rs: Vec<&str> = (0..r.below(3)).map(|_| *r.pick(&words)).collect();
+                // strings that need escaping in JSON text: quotes, backslashes, control characters,
+                // DEL, separators, non-ASCII of 2, 3 and 4 UTF-8 bytes, the empty string
+                let odd = ["a\"b", "back\\slash", "\n", "\t\r", "\u{1}", "\u{1f}\u{8}\u{c}", "\u{7f}", "\u{e9}", "\u{20ac}",
+                    "\u{1f600}", "", "/", "\u{2028}", "Word { width: Some(8), usage: Bool }", "\\u0041", "\"", "{\"k\":[1,2]}", " "];
+                let pick = |r: &mut Rng| -> String {
+                    if r.chance(1, 2) {
+                        r.pick(&words).to_string()
+                    } else {
+                        let mut s = String::new();
+                        for _ in 0..1 + r.below(3) {
+                            s.push_str(*r.pick(&odd));
+                        }
+                        format!("~{}", crate::util::bytes_to_hex(s.as_bytes()))
+                    }
+                };
+                let c: Vec<String> = (0..r.below(3)).map(|_| pick(r)).collect();
+                let rs: Vec<String> = (0..r.below(3)).map(|_| pick(r)).collect();
                 out.push_str(&format!("(conflict {}|{})", c.join(","), rs.join(",")));
             }
         }
@@ -172,6 +197,7 @@ pub fn generate(seed: u64, n: usize, _tier: &str, emit: &mut dyn FnMut(String)) 
     // every leaf variant once at boundary indices
     for (i, t) in ["any", "(number ?)", "(number 8)", "(uint 256)", "(int ?)", "address", "selector", "function", "bool",
         "(bytes 32)", "(bits ?)", "dynbytes", "infinite", "(conflict a,b|c)", "(conflict |)", "(struct)",
+        "(conflict ~6122,~5c|~0a)", "(conflict ~|~01)", "(conflict ~c3a9e282acf09f9880|~7f)", "(conflict a|)", "(conflict |b)",
         "(array 0xffffffffffffffffffffffffffffffffffffffffffffffffffffffffffffffff any)"].iter().enumerate() {
         let idx = bw[(i * 37) % bw.len()];
         emit(format!("0x{idx:x} {} {t}", (i * 17) % 256));
